@@ -306,7 +306,7 @@ func (a *Authenticator) receiveCHAP(data []byte) error {
 	identifier := data[1]
 	length := binary.BigEndian.Uint16(data[2:4])
 
-	if int(length) > len(data) {
+	if length < 4 || int(length) > len(data) {
 		return fmt.Errorf("CHAP length exceeds packet")
 	}
 
